@@ -11,6 +11,7 @@ Lemma tree_claim_only_by_owner_after_expiry : forall who id s s',
 Proof. intros who id s s' H. apply (claim_only_by_owner_after_expiry tree_variant who id s s' eq_refl H). Qed.
 
 Lemma tree_claim_once : forall c who id s s' ops who2,
+  (forall o, In o ops -> is_genesis o = false) ->
   ids_bounded s -> claim tree_variant who id s = Ok s' ->
   exists e, claim tree_variant who2 id (run tree_variant c ops s') = Err e.
 Proof. intros. eapply claim_once; eassumption. Qed.
